@@ -21,6 +21,10 @@ def MakeCustomaryToBase(a: Any, b: Any, c: Any, d: Any) -> UnaryConversionFunc:
         Returns a callable with the conversion to the base.
     """
 
+    # Note: the table gives many coefficients as ints; with an integer numpy array as input the
+    # product would be calculated in (overflowing) integer arithmetic.
+    a, b, c, d = float(a), float(b), float(c), float(d)
+
     def ret(x: Any) -> Any:
         return (a + b * x) / (c + d * x)
 
@@ -46,6 +50,8 @@ def MakeBaseToCustomary(a: Any, b: Any, c: Any, d: Any) -> UnaryConversionFunc:
          Returns a callable with the conversion from the base to a unit (depending on the
          coefficients).
     """
+
+    a, b, c, d = float(a), float(b), float(c), float(d)
 
     def ret(y: Any) -> Any:
         return (a - c * y) / (d * y - b)
